@@ -115,6 +115,8 @@ def indicator_identity(p, b, solver, V, max_per_problem=200):
         for i, ind in enumerate(p["inds"]):
             if b.inds[i] is None:
                 continue
+            if not p["user_horizon"] and ind["cls"] in ("IndicatorResourceUtilization", "FlowtimeSingleResource"):
+                continue   # relative to the horizon the solution reports: judged on returned solutions (R_indicator)
             lo, hi = v["ind"][i]
             var = b.inds[i]._indicator_variable
             outs.append(z3.Or(var < lo, var > hi))
